@@ -103,7 +103,9 @@ func g04All() []g04Vec { g04Once.Do(g04Init); return g04Vecs }
 // attribute-name position; tag/markup vectors in element content.
 var g04TagPrefixes = []string{"", "abc ", "x>", "x >", "x'>", "x\">", "x`>", "'>", "\">", "`>", "x' >", "x\" />", "</b>", "--></style>",
 	// an end tag closed after white space, a slash or a quoted value right before the vector
-	"\"></a >", "'></p\n>", "x></b/>", "\"></a b='c'>", "</i\t>", "x></td >"}
+	"\"></a >", "'></p\n>", "x></b/>", "\"></a b='c'>", "</i\t>", "x></td >",
+	// other complete constructs right before the vector
+	"<!--x-->", "<!-- x --!>", "<![CDATA[x]]>", "<%x%>", "<?x?>", "</>", "<b/>", "<b c=d/>", "<b c='d'/>", "<b c=d>t</b>", "<!x>", "x<!---->", "<b c=\"d\"e=f>", "&lt;", "<b\x00c>", "<b c=d\x00>"}
 
 type g04AttrPrefix struct {
 	text   string
@@ -112,6 +114,7 @@ type g04AttrPrefix struct {
 
 var g04AttrPrefixes = []g04AttrPrefix{
 	{"<a ", true}, {"<img/", true}, {"<a b=c ", true}, {"<a b='c'", true}, {"text <b ", true},
+	{"</a ", true}, {"<b/><a ", true}, {"</p ><img ", true}, {"<!--x--><a ", true}, {"<a b=\"c\"", true}, {"<a b=`c`", true}, {"<a\n", true}, {"<a b ", true}, {"<a b= c ", true},
 	{"x ", false}, {"x/", false}, {"", false},
 	{"x' ", false}, {"x'/", false}, {"x'", false}, {"' ", false},
 	{"x\" ", false}, {"x\"/", false}, {"x\"", false}, {"\" ", false},
